@@ -272,7 +272,20 @@ def sanitize_literal(s, at_line_start, last=False):
     return s
 
 
-def gen_doc(r):
+WRAPS = {
+    # name: (prefix, suffix): the document is the body of a def / block written once; same expected output
+    "def": ('<%def name="w_()">', "</%def>${w_()}"),
+    "def-filter-n": ('<%def name="w_()" filter="n">', "</%def>${w_()}"),
+    "def-buffered": ('<%def name="w_()" buffered="True">', "</%def>${w_()}"),
+    "def-capture": ('<%def name="w_()">', "</%def>${capture(w_)}"),
+    "block": ("<%block>", "</%block>"),
+    "block-named": ('<%block name="w_">', "</%block>"),
+    "block-filter-n": ('<%block filter="n">', "</%block>"),
+    "call-body": ('<%def name="w_()">${caller.body()}</%def><%call expr="w_()">', "</%call>"),
+}
+
+
+def gen_doc(r, wrap=None):
     """-> (source, expected, kinds)"""
     segs = []  # (src, expected, kind)
     at_ls = True
@@ -318,7 +331,12 @@ def gen_doc(r):
         elif k < 0.48:
             body = r.choice(["${x}", "% if y:\n", "<%doc>q</%doc>", "## no\n", "<%def>", "%%", "\\\n", "</%textx>", "<%text>"]) + rand_text(r, 10)
             body = body.replace("</%text>", "")
-            segs.append(("<%text>" + body + "</%text>", body, "text-tag"))
+            flt = r.choice([None, None, "n", "trim", "n,trim"])
+            if flt is None:
+                segs.append(("<%text>" + body + "</%text>", body, "text-tag"))
+            else:
+                # a filtered <%text> goes through a pushed buffer; what follows it must still be written
+                segs.append(('<%%text filter="%s">' % flt + body + "</%text>", body.strip() if "trim" in flt else body, "text-tag-filtered"))
             at_ls = False
         elif k < 0.56:
             v = rand_text(r, 8)
@@ -328,7 +346,7 @@ def gen_doc(r):
             at_ls = False
         elif k < 0.60:
             opts = ["<% pass %>", "<%\n  _q = 1\n%>", "<%\t_z = '%>'[0]\n%>"]
-            if not open_ctl:
+            if not open_ctl and wrap is None:
                 # a <%! %> block as the only content of a control body leaves the generated
                 # 'if' without a statement (IndentationError); outside this property's subject
                 opts.append("<%! import os %>")
@@ -360,13 +378,22 @@ def gen_doc(r):
         src_parts.append(s)
         exp_parts.append(e)
         kinds.append(kd)
+    if wrap is not None:
+        pre, suf = WRAPS[wrap]
+        # the newline keeps the document's first segment at a line start; it belongs to the wrapped body
+        src_parts = [pre + "\n"] + src_parts + [suf]
+        exp_parts = ["\n"] + exp_parts
+        kinds.append("wrap-" + wrap)
     return "".join(src_parts), "".join(exp_parts), kinds
 
 
 def run_doc(case, res):
     r = common.rng_for(case["seed"], "c01doc", case["index"])
     for j in range(case["n"]):
-        src, expected, kinds = gen_doc(r)
+        wrap = r.choice(sorted(WRAPS)) if r.random() < 0.3 else None
+        src, expected, kinds = gen_doc(r, wrap)
+        if wrap is not None:
+            res.count("docs_wrapped")
         if _coding.match(src):
             continue
         res.evaluations += 1
